@@ -121,8 +121,14 @@ class Check:
             if isinstance(b, np.ndarray) and t.kind.recursive and b.ndim == 2 and len(b) == hist.n:
                 q_inits.append(b[0].copy())
             elif t.kind.recursive:
-                tq = hist.truth[0]
-                q_inits.append(np.array([tq[0], -tq[1], -tq[2], -tq[3]]) if t.kind.conj else tq.copy())
+                # the batch constructor raised: its Q[0] is only known when the configuration fixes it (q0=...)
+                q0p = t.spec.get('params', {}).get('q0')
+                if q0p is not None and t.kind.q0_route == 'q0':
+                    q_inits.append(np.array(q0p, dtype=float) / np.linalg.norm(q0p))
+                else:
+                    tq = hist.truth[0]
+                    q_inits.append(np.array([tq[0], -tq[1], -tq[2], -tq[3]]) if t.kind.conj else tq.copy())
+                    t.incomparable = True
             else:
                 q_inits.append(None)
             if isinstance(b, np.ndarray) and len(b) != hist.n:
@@ -202,6 +208,9 @@ class Check:
     def _refine(self, viol, t, out, b, stats):
         n = t.hist.n
         if isinstance(b, K.Crash) or isinstance(b, K.Refusal):
+            stats['batch_raised'] = stats.get('batch_raised', 0) + 1
+            if getattr(t, 'incomparable', False):
+                return      # no common initial attitude is defined; crashes as such belong to C03
             # the batch constructor rejected/crashed on this history: the stream must fail the same way somewhere
             kinds = {type(o).__name__ + ':' + getattr(o, 'etype', '') for o in out if isinstance(o, (K.Crash, K.Refusal))}
             want = type(b).__name__ + ':' + getattr(b, 'etype', '')
@@ -253,6 +262,10 @@ class Check:
                 out[k] = r
                 if r is not None and t.kind.recursive:
                     q = r
+            except np.linalg.LinAlgError as e:
+                out[k] = K.Crash(e)
+                if t.kind.recursive:
+                    break
             except ValueError as e:
                 out[k] = K.Refusal(str(e)[:200])
             except Exception as e:      # noqa: BLE001
